@@ -18,6 +18,9 @@ pub enum DKind {
     OmitEntryThenPanic(u16),
     /// emit an op into another instance
     ForeignWrite(u8),
+    /// re-point exactly one node/edge READ entry at another instance (same local id): the
+    /// access in the rewrite's own instance is then undeclared
+    MisdirectRead(u16),
     /// a non-system rule emits an instance-level op
     InstanceOp,
 }
@@ -39,6 +42,7 @@ fn vcase() -> impl Strategy<Value = VCase> {
             6 => any::<u16>().prop_map(DKind::OmitEntry),
             2 => any::<u16>().prop_map(DKind::OmitEntryThenPanic),
             1 => (0u8..4).prop_map(DKind::ForeignWrite),
+            3 => any::<u16>().prop_map(DKind::MisdirectRead),
             1 => Just(DKind::InstanceOp),
         ],
         0u8..4,
@@ -155,6 +159,32 @@ fn check_violation(_ctx: &Ctx, case: &VCase, probe: &mut Probe) -> Check {
             }
             e
         }
+        DKind::MisdirectRead(p) => {
+            let es: Vec<Expect> = entries(&v.prog.fp).into_iter().filter(|e| matches!(e, Expect::NodeRead(_) | Expect::EdgeRead(_))).collect();
+            if es.is_empty() {
+                probe.class("violator-has-no-node-or-edge-read");
+                return Ok(());
+            }
+            let e = es[vkit::pick_idx(*p, es.len())].clone();
+            // a write to the same key keeps the access declared in most guards: only pure reads
+            let fw = (v.w + 1 + (*p as u8 % 3)) % 4;
+            let fw = if fw == v.w { (fw + 1) % 4 } else { fw };
+            match &e {
+                Expect::NodeRead(n) if !v.prog.fp.n_write.contains(n) => {
+                    v.prog.fp.n_read.remove(n);
+                    v.prog.fp.foreign_n_read.insert((fw, *n));
+                }
+                Expect::EdgeRead(x) if !v.prog.fp.e_write.contains(x) => {
+                    v.prog.fp.e_read.remove(x);
+                    v.prog.fp.foreign_e_read.insert((fw, *x));
+                }
+                _ => {
+                    probe.class("misdirect:entry-also-written");
+                    return Ok(());
+                }
+            }
+            e
+        }
         DKind::ForeignWrite(w) => {
             let fw = if *w == v.w { (*w + 1) % 4 } else { *w };
             v.prog.instrs.push(Instr::ForeignUpsertNode { w: fw, n: 0, ty: 0 });
@@ -233,6 +263,11 @@ fn check_violation(_ctx: &Ctx, case: &VCase, probe: &mut Probe) -> Check {
             Err(RunErr::ViolationWithPanic(fv, msg)) => {
                 vensure!(with_panic, "C14/unexpected-with-panic", "{:?} {msg}", fv);
                 vensure!(kind_matches(&fv.kind, &expect), "C14/violation-names-wrong-access", "got {:?}, expected {:?}", fv, expect);
+            }
+            Err(RunErr::Panic(_)) if matches!(case.kind, DKind::MisdirectRead(_)) => {
+                // the guard refuses a read set that names another instance outright (an
+                // assertion when the guard is built): the tick fails before anything runs
+                probe.class("misdirected-declaration-refused-at-guard-construction");
             }
             Err(RunErr::Panic(msg)) => {
                 vfail!("C14/violation-reported-as-plain-panic", "expected a FootprintViolation payload for {:?}, got panic: {msg}", expect);
